@@ -252,8 +252,8 @@ pub(super) fn load_styles<R: Read + std::io::Seek>(
     let mut borders = Vec::new();
     let border_nodes = style_sheet
         .children()
-        .filter(|n| n.has_tag_name("borders"))
-        .collect::<Vec<Node>>()[0];
+        .find(|n| n.has_tag_name("borders"))
+        .ok_or_else(|| XlsxError::Xml("Missing borders in xl/styles.xml".to_string()))?;
     for border in border_nodes.children() {
         let diagonal_up = get_bool_false(border, "diagonal_up");
         let diagonal_down = get_bool_false(border, "diagonal_down");
